@@ -1289,7 +1289,8 @@ def run(ctx):
     asan = build.get_build("asan", ctx.log)
     heavy_cases = sorted((c for c in cases if c.get("strs")),
                          key=lambda c: -max(sum(len(x) if kd == "s" else 1 for kd, x in v) for v in c["strs"].values()))
-    for c in heavy_cases[:ctx.n(4, 40)]:
+    shorties = [c for c in cases if c.get("strs") and any(kd == "s" and len(x) <= 3 for v in c["strs"].values() for kd, x in v)]
+    for c in heavy_cases[:ctx.n(4, 40)] + shorties[:ctx.n(3, 20)]:
         write_dir(c, d)
         for cmd in (["replay"], ["dump"], ["dump", "--chrome"]):
             rc, out, err = uft(asan, cmd + ["--no-pager", "-d", d])
